@@ -53,9 +53,12 @@ func (l *DeadlineLimiter) tryAcquire(ctx context.Context) (listener core.Listene
 			return nil, false
 		}
 
-		// try to acquire a new token and return immediately if successful
+		// try to acquire a new token and return immediately if successful.  The condition lock is held from the attempt
+		// until the wait is registered so that a release in between is not missed.
+		l.c.L.Lock()
 		listener, ok := l.delegate.Acquire(ctx)
 		if ok && listener != nil {
+			l.c.L.Unlock()
 			l.logger.Debugf("delegate returned a listener ctx=%v", ctx)
 			return listener, true
 		}
@@ -68,7 +71,7 @@ func (l *DeadlineLimiter) tryAcquire(ctx context.Context) (listener core.Listene
 		// - A timeout
 		// - The context is cancelled
 		l.logger.Debugf("Blocking waiting for release or timeout ctx=%v", ctx)
-		if shouldAcquire := blockUntilSignaled(ctx, l.c, timeout); shouldAcquire {
+		if shouldAcquire := blockUntilSignaledLocked(ctx, l.c, timeout); shouldAcquire {
 			listener, ok := l.delegate.Acquire(ctx)
 			if ok && listener != nil {
 				l.logger.Debugf("delegate returned a listener ctx=%v", ctx)
